@@ -275,6 +275,10 @@ def run(chk):
     items.append(("MultiScalarMult alias_last", lambda: c01.run_one(base, chk, "MultiScalarMult", "alias_last", maxn)))
     heavy.append(("VarTimeMultiScalarMult dup", lambda: c01.run_one(base, chk, "VarTimeMultiScalarMult", "other", 2, True)))
     items.append(("MultiScalarMult dup", lambda: c01.run_one(base, chk, "MultiScalarMult", "other", 2, True)))
+    heavy.append(("VarTimeMultiScalarMult dupk", lambda: c01.run_one(base, chk, "VarTimeMultiScalarMult", "other", maxn, "k")))
+    heavy.append(("VarTimeMultiScalarMult dupkp", lambda: c01.run_one(base, chk, "VarTimeMultiScalarMult", "alias", 2, "kp")))
+    items.append(("MultiScalarMult dupk", lambda: c01.run_one(base, chk, "MultiScalarMult", "other", maxn, "k")))
+    items.append(("MultiScalarMult dupkp", lambda: c01.run_one(base, chk, "MultiScalarMult", "alias", 2, "kp")))
     items.append(("ScalarBaseMult", lambda: c01.run_one(base, chk, "ScalarBaseMult", "other")))
 
     def cof(state):
